@@ -1,3 +1,11 @@
+//! vf-eng-c: engine-level checks C05 (stored ledger well-formed), C50 (objects encapsulated by
+//! their blueprint), C51 (locked state stays locked).
+
+pub mod c05;
+pub mod env;
+pub mod pup;
+pub mod scan;
+
 pub fn checks() -> Vec<vf_core::Check> {
-    vec![]
+    vec![c05::check()]
 }
